@@ -337,9 +337,16 @@ def reads_before_writes(stmts, written):
         elif isinstance(s, ast.Try):
             w = set(written)
             out |= reads_before_writes(s.body, w)
-            for h in s.handlers: out |= reads_before_writes(h.body, set(written))
             out |= reads_before_writes(s.orelse, w)
+            ws = [w]
+            for h in s.handlers:
+                wh = set(written)
+                out |= reads_before_writes(h.body, wh)
+                if not (h.body and isinstance(h.body[-1], (ast.Continue, ast.Break, ast.Return, ast.Raise))): ws.append(wh)
             out |= reads_before_writes(s.finalbody, set(written))
+            if not s.finalbody:
+                common = set.intersection(*ws)
+                written |= common
         else:
             out |= read_names([s]) - written
     return out
@@ -551,6 +558,11 @@ class Fn(Stmts):
             r = self.u.contains(self, e, op, (lt, lty), (rt, rty), env, B)
             if r is not None: return r
             bad(e, f'`in` between {lty} and {rty}')
+        if op in ('Eq', 'NotEq') and isinstance(L, ast.Constant) and not isinstance(R, ast.Constant):
+            L, R = R, L          # `==` between a literal and a value is symmetric and both sides are free of effects: literal on the right
+        if op in ('Lt', 'LtE', 'Gt', 'GtE') and isinstance(L, ast.Constant) and not isinstance(R, ast.Constant):
+            L, R = R, L
+            op = dict(Lt='Gt', LtE='GtE', Gt='Lt', GtE='LtE')[op]
         lt, lty = self.expr(L, env, B)
         rt, rty = self.expr(R, env, B)
         if op in ('Eq', 'NotEq'):
